@@ -21,6 +21,9 @@ PROBES = [
     'TODAY()', 'LEFT("abc";2)', 'IFERROR(1/0;0)', 'A1*B1-C1/D1', 'SUM( A1 : A3 )', 'sum(A1)', '1 2', '1+', '1 +', '@', '1 @ 2', '#REF!',
     'A1 B1', 'MATCH(1;A1:A5;0)', 'INDEX(A1:B5;2;1)', 'AVERAGE(A1:A4)', 'ROUNDUP(1.5;0)', 'ROUNDDOWN(1.5;0)', 'NETWORKDAYS(A1;B1)',
     'EOMONTH(A1;1)', 'OR(A1;B1)', 'NOT(A1)' if False else 'MIN(A1;2)', 'CONCATENATE("a";"b")', 'IFS(A1>1;1;A1>0;2)', '1.', '.5', '1..2',
+    # references whose letters begin like a function name, separators in front of a closing bracket
+    'IF1', 'OR2+AND3', 'MAX1:MAX3', 'SUM7', 'DAY3*2', 'ORDERS!A1', 'SUMMARY!B1:B3', 'MIN4', 'DATE1', 'SUM(A1;)', 'IF(A1;1;)', '(1,)',
+    'ROUNDUP(1.5;)', 'LEFT("a",)', 'SUM(1;;2)',
     '""', '"unterminated', 'A1:B2:C3', '((1))', '1*(2+(3-4))', '1+\n2', 'SUM(A1;\nB1)', '"a\nb"&"c"', '1\n', '\n1',
 ]
 # the characters inside text literals and the case of everything reach the token classes as they are in the formula
@@ -30,7 +33,7 @@ TEXT_PROBES = [
 ]
 
 
-def reference(g, text: str):
+def reference(g, text: str, order=None):
     """[(class, groups)] or 'rejects'"""
     out = []
     steps = 0
@@ -39,8 +42,10 @@ def reference(g, text: str):
         if steps > 500:
             return 'stuck'
         s = text.lstrip()
-        for name in g.lexer_order:
-            t = g.terminals[name]
+        for name in (order or g.lexer_order):
+            t = g.terminals.get(name)
+            if t is None:
+                continue
             m = re.findall(rf'^({t.regexp})({t.tail})$', s)
             if not m:
                 continue
@@ -66,10 +71,29 @@ def build(src, g):
         for st in ci.module.tree.body:
             if isinstance(st, ast.FunctionDef):
                 ev.functions.setdefault(st.name, st)
-    order = list(g.lexer_order) + (['UndefinedToken'] if 'UndefinedToken' in table else [])
-    table['Lexer']['attrs'] = dict(table['Lexer']['attrs'])
-    table['Lexer']['attrs']['TOKENS'] = ast.List(elts=[ast.Name(id=n, ctx=ast.Load()) for n in order], ctx=ast.Load())
+    for k, e in table.items():
+        if src.has_cls(k):
+            e['bases'] = [getattr(b, 'name', str(b)) for b in src.bases(src.cls(k))]
     ev.class_table = table
+    # the order in which the lexer tries the classes: Lexer.TOKENS evaluated as written (subclasses(), its ranking and sorting);
+    # where the abstraction cannot follow it, the order of the grammar model (engine G) is used
+    order = list(g.lexer_order) + (['UndefinedToken'] if 'UndefinedToken' in table else [])
+    ev.tokens_as_written = None
+    try:
+        v = ev.ev(ast.parse('Lexer.TOKENS', mode='eval').body, {})
+        if v.items is not None and all(ev.is_class_value(x) for x in v.items):
+            ev.tokens_as_written = [x.val[1] for x in v.items]
+    except Exception:
+        pass
+    if ev.tokens_as_written is None:
+        expr = lx.attrs.get('TOKENS')
+        if expr is None or ast.unparse(expr).replace(' ', '') != 'RegexpBaseToken.subclasses()':
+            raise AnalysisError('C05.R3', f'Lexer.TOKENS is `{ast.unparse(expr)[:80] if expr is not None else "?"}`: the order in which the lexer tries '
+                                          f'the token classes cannot be evaluated')
+        table['Lexer']['attrs'] = dict(table['Lexer']['attrs'])
+        table['Lexer']['attrs']['TOKENS'] = ast.List(elts=[ast.Name(id=n, ctx=ast.Load()) for n in order], ctx=ast.Load())
+    else:
+        ev.class_state[('Lexer', 'TOKENS')] = v
     from .common import exception_bases
     ev.exception_bases = exception_bases(src)
     return ev, lx
